@@ -16,20 +16,38 @@ package main
 //              files the model does not describe but in which some ECParameters structure still
 //              decodes somewhere: a name may be shown only if one of them has that curve's components
 //   table      input ()                            impl the curve table after all calls above
+//   bundle     input (obj file-bytes)              impl outcome of file.Inspect, full Info
+//              a PEM file of several blocks (a genuine explicit-parameter object next to a deviating
+//              one, in both orders, with other blocks or text between, two keys, ...): each block's
+//              report may show an inferred name only if that block's OWN parameters are the curve's
+//   history    input ((obj file-bytes)...)         impl (outcome...) of successive file.Inspect calls
+//              in one process: a genuine object first, then the object under test
+//   cli        input (mode ((path obj file-bytes)...)) impl (exit-code stdout) of the real CLI, one
+//              process: mode 0 "decipher -r <dir>", mode 1 "decipher <file> <file> ..."
+//   keystore   input (obj file-bytes)              impl outcome of file.Inspect, full Info: a JKS keystore
+//              whose trusted-certificate entries carry explicit-parameter keys
+//
+// obj = (kind pem st): st = (2 fields) | (1) | (0) one EC container as in op inspect;
+//   (3 info (fields?)) any other object, its report when inspected alone recorded by the harness (and
+//   its explicit parameters if it carries any); (4 obj...) a PEM bundle of blocks; (5 top obj...) a
+//   keystore: the report of its first entry's one-entry keystore, then one obj (3 ...) per entry.
 //
 // fields = (oid-arcs prime? char2? a b seed seedbits base order cofactor); integers travel as
 // (neg #magnitude); an optional integer is () or ((neg #mag)).
 
 import (
 	"bytes"
+	"context"
 	stdel "crypto/elliptic"
 	"encoding/asn1"
 	"encoding/pem"
 	"fmt"
 	"math/big"
 	"os"
+	"os/exec"
 	"path/filepath"
 	"strings"
+	"time"
 
 	"github.com/edutko/decipher/internal/asn1struct"
 	wel "github.com/edutko/decipher/internal/crypto/elliptic"
@@ -470,6 +488,16 @@ type c16Gen struct {
 	curves []c16Curve
 	keys   []string
 	rr     int // round-robin over container forms
+	// multi-entry carriers
+	neighbor *ecSpec  // the genuine parameters next to which the current deviation is placed
+	ctxN     int      // round-robin over the arrangements
+	pending  []c16Dev // deviations of the current parameter family, for the CLI / keystore cases
+	others   map[string]c16Obj
+}
+
+type c16Dev struct {
+	tag string
+	s   ecSpec
 }
 
 func (g *c16Gen) inspectFile(data []byte, reduced bool) Sx {
@@ -574,6 +602,18 @@ func (g *c16Gen) file(c c16Curve, s ecSpec, kind int, pemForm bool) []byte {
 }
 
 func (g *c16Gen) matchCase(tag string, p asn1struct.ECParameters) {
+	if g.neighbor != nil {
+		// history at the level of the direct call: the genuine parameters of the family are looked up
+		// (and matched against every row) immediately before the parameters under test
+		gp := g.neighbor.direct()
+		func() {
+			defer func() { recover() }()
+			wel.CurveNameFromParameters(gp)
+			for _, k := range g.keys {
+				wel.VerifPrimeFieldParamsMatch(k, gp)
+			}
+		}()
+	}
 	nameObs := guard(func() Sx { return ObsOk(S(wel.CurveNameFromParameters(p))) })
 	ms := SL{}
 	for _, k := range g.keys {
@@ -611,11 +651,364 @@ func (g *c16Gen) paramCase(tag string, c c16Curve, s ecSpec, everywhere bool) {
 			g.emitFile(tag, f[0], f[1] == 1, g.file(c, s, f[0], f[1] == 1))
 		}
 		g.emitFile(tag, kParams, false, g.file(c, s, kParams, false))
+	} else {
+		f := c16Forms[g.rr%len(c16Forms)]
+		g.rr++
+		g.emitFile(tag, f[0], f[1] == 1, g.file(c, s, f[0], f[1] == 1))
+	}
+	// ... and next to / after genuine parameters of the same curve
+	gen := c.spec(false, true)
+	if g.neighbor != nil {
+		gen = g.neighbor.clone()
+	}
+	g.contextCases(tag, c, gen, s)
+}
+
+// ---------- more than one object in a carrier, more than one inspection in a process ----------
+
+// c16Obj: one inspected object (a file, or a PEM block inside a bundle) with what the oracle says
+// about it ALONE -- the spec checker judges each described object by its own parameters only
+type c16Obj struct {
+	desc Sx
+	data []byte
+}
+
+func (g *c16Gen) inspectAlone(data []byte) file.Info {
+	p := filepath.Join(g.dir, "alone.bin")
+	if err := os.WriteFile(p, data, 0o644); err != nil {
+		fmt.Fprintln(os.Stderr, "c16: write:", err)
+		os.Exit(1)
+	}
+	defer os.Remove(p)
+	var out file.Info
+	func() {
+		defer func() { recover() }()
+		f, err := os.Open(p)
+		if err != nil {
+			return
+		}
+		defer f.Close()
+		out, _ = file.Inspect(f)
+	}()
+	return out
+}
+
+// another kind of object: its report when inspected alone is what the model is told; fields are its
+// own explicit parameters if it carries any (else no name may be inferred for it at all)
+func (g *c16Gen) otherObj(pemForm bool, data []byte, fields *ecFields) c16Obj {
+	fs := SL{}
+	if fields != nil {
+		fs = append(fs, fields.Sx())
+	}
+	pf := 0
+	if pemForm {
+		pf = 1
+	}
+	return c16Obj{SL{I(9), I(pf), SL{I(3), InfoSx(g.inspectAlone(data)), fs}}, data}
+}
+
+// one EC container file / block as the oracle classifies it alone (ok=false: not a case the model describes)
+func ecObjOfData(kind int, pemForm bool, data []byte) (c16Obj, bool) {
+	if kind < 0 {
+		return c16Obj{}, false
+	}
+	state, p := containerOracle(kind, pemForm, data)
+	pf := 0
+	if pemForm {
+		pf = 1
+	}
+	switch {
+	case state == 2:
+		return c16Obj{SL{I(kind), I(pf), SL{I(2), fieldsOf(p).Sx()}}, data}, true
+	case state == 1 || state == 0 && pemForm:
+		return c16Obj{SL{I(kind), I(pf), SL{I(state)}}, data}, true
+	}
+	return c16Obj{}, false
+}
+
+// one EC container with the parameters s, in a form the model describes (DER where the container
+// decodes, else PEM)
+func (g *c16Gen) ecObj(c c16Curve, s ecSpec, kind int, pemForm bool) c16Obj {
+	data := g.file(c, s, kind, pemForm)
+	if o, ok := ecObjOfData(kind, pemForm, data); ok {
+		return o
+	}
+	if !pemForm {
+		return g.ecObj(c, s, kind, true)
+	}
+	return g.otherObj(true, data, nil)
+}
+
+// an existing PEM file of one or more blocks, block by block
+func (g *c16Gen) objOfPEMFile(data []byte) c16Obj {
+	st := SL{I(4)}
+	for rest := data; ; {
+		blk, r := pem.Decode(rest)
+		if blk == nil {
+			break
+		}
+		rest = r
+		one := pem.EncodeToMemory(blk)
+		kind := -1
+		for k, t := range c16PemType {
+			if blk.Type == t {
+				kind = k
+			}
+		}
+		if o, ok := ecObjOfData(kind, true, one); ok {
+			st = append(st, o.desc)
+		} else {
+			st = append(st, g.otherObj(true, one, nil).desc)
+		}
+	}
+	return c16Obj{SL{I(8), I(1), st}, data}
+}
+
+func c16Bundle(sep string, members ...c16Obj) c16Obj {
+	st := SL{I(4)}
+	var data []byte
+	for i, m := range members {
+		if i > 0 {
+			data = append(data, sep...)
+		}
+		data = append(data, m.data...)
+		st = append(st, m.desc)
+	}
+	return c16Obj{SL{I(8), I(1), st}, data}
+}
+
+// blocks of other kinds that stand between (or instead of) the EC blocks of a bundle
+func (g *c16Gen) other(name string) c16Obj {
+	if o, ok := g.others[name]; ok {
+		return o
+	}
+	p256 := g.curves[1]
+	oidP256 := c16_tlv(0x06, []byte{0x2a, 0x86, 0x48, 0xce, 0x3d, 3, 1, 7})
+	var o c16Obj
+	switch name {
+	case "cert": // a certificate with a named-curve key (P-384)
+		o = g.otherObj(true, pem.EncodeToMemory(&pem.Block{Type: "CERTIFICATE", Bytes: c16Cert(g.curves[2], c16_tlv(0x06, []byte{0x2b, 0x81, 0x04, 0, 0x22}))}), nil)
+	case "rsa":
+		o = g.otherObj(true, fixture("x509/pem/rsa-1024.key"), nil)
+	case "unknown":
+		o = g.otherObj(true, pem.EncodeToMemory(&pem.Block{Type: "C16 UNKNOWN", Bytes: []byte("what is this")}), nil)
+	case "named-params":
+		o = g.otherObj(true, wrapPEM(kParams, oidP256), nil)
+	case "named-key":
+		o = g.otherObj(true, wrapPEM(kSEC1, container(kSEC1, p256, oidP256)), nil)
+	case "named-pub":
+		o = g.otherObj(true, wrapPEM(kSPKI, container(kSPKI, p256, oidP256)), nil)
+	case "named-cert":
+		o = g.otherObj(true, pem.EncodeToMemory(&pem.Block{Type: "CERTIFICATE", Bytes: c16Cert(p256, oidP256)}), nil)
+	}
+	if g.others == nil {
+		g.others = map[string]c16Obj{}
+	}
+	g.others[name] = o
+	return o
+}
+
+// a certificate (not signed by anyone: nothing here verifies signatures) whose SubjectPublicKeyInfo
+// carries the given EC parameters
+func c16Cert(c c16Curve, params []byte) []byte {
+	name := c16_tlv(0x30, c16_tlv(0x31, c16_tlv(0x30, c16_tlv(0x06, []byte{0x55, 4, 3}), c16_tlv(0x0c, []byte("c16 explicit")))))
+	validity := c16_tlv(0x30, c16_tlv(0x17, []byte("250101000000Z")), c16_tlv(0x17, []byte("350101000000Z")))
+	sigAlg := c16_tlv(0x30, c16_tlv(0x06, []byte{0x2a, 0x86, 0x48, 0xce, 0x3d, 4, 3, 2}))
+	tbs := c16_tlv(0x30, c16_tlv(0xa0, c16_tlv(0x02, []byte{2})), c16_tlv(0x02, []byte{1}), sigAlg, name, validity, name, container(kSPKI, c, params))
+	sig := c16_tlv(0x30, c16_tlv(0x02, []byte{1}), c16_tlv(0x02, []byte{1}))
+	return c16_tlv(0x30, tbs, sigAlg, c16_tlv(0x03, []byte{0}, sig))
+}
+
+// the explicit parameters a certificate / keystore entry carries, as the decoder reads them (nil: none decode)
+func c16FieldsOfSpec(s ecSpec) *ecFields {
+	var p asn1struct.ECParameters
+	if _, err := asn1.Unmarshal(s.der(), &p); err != nil || p.Order == nil {
+		return nil
+	}
+	f := fieldsOf(p)
+	return &f
+}
+
+func (g *c16Gen) certObj(c c16Curve, s ecSpec) c16Obj {
+	return g.otherObj(true, pem.EncodeToMemory(&pem.Block{Type: "CERTIFICATE", Bytes: c16Cert(c, s.der())}), c16FieldsOfSpec(s))
+}
+
+var c16Arrangements = []string{"params+key", "key+params", "params+cert+key", "two-keys", "devparams+key", "named-params+key",
+	"mixed", "params+devparams+key", "params+text+key", "pkcs8+pub+pkcs8", "params+key+params+key", "certs"}
+
+// contextCases: the parameters dev (a deviation, or genuine parameters once more) next to / after the
+// genuine parameters gen, in one PEM bundle and in one process
+func (g *c16Gen) contextCases(tag string, c c16Curve, gen, dev ecSpec) {
+	n := g.ctxN
+	g.ctxN++
+	G := func(kind int) c16Obj { return g.ecObj(c, gen, kind, true) }
+	D := func(kind int) c16Obj { return g.ecObj(c, dev, kind, true) }
+	name := c16Arrangements[n%len(c16Arrangements)]
+	sep := ""
+	var ms []c16Obj
+	switch name {
+	case "params+key": // what "openssl ecparam -genkey" writes
+		ms = []c16Obj{G(kParams), D(kSEC1)}
+	case "key+params":
+		ms = []c16Obj{D(kSEC1), G(kParams)}
+	case "params+cert+key":
+		ms = []c16Obj{G(kParams), g.other("cert"), D(kSEC1)}
+	case "two-keys":
+		ms = []c16Obj{G(kSEC1), D(kSEC1)}
+	case "devparams+key":
+		ms = []c16Obj{D(kParams), G(kSEC1)}
+	case "named-params+key":
+		ms = []c16Obj{g.other("named-params"), D(kSEC1), g.other("named-key"), D(kParams)}
+	case "mixed":
+		ms = []c16Obj{G(kParams), g.other("unknown"), g.other("named-key"), D(kSPKI), g.other("rsa"), D(kPKCS8), D(kSEC1), G(kSEC1), g.other("named-pub")}
+	case "params+devparams+key":
+		ms = []c16Obj{G(kParams), D(kParams), G(kSEC1)}
+	case "params+text+key":
+		sep = "subject=CN = c16\nsome text between the blocks -----BEGIN\n\n"
+		ms = []c16Obj{G(kParams), D(kSEC1)}
+	case "pkcs8+pub+pkcs8":
+		ms = []c16Obj{G(kPKCS8), D(kSPKI), D(kPKCS8), G(kSPKI)}
+	case "params+key+params+key":
+		ms = []c16Obj{G(kParams), G(kSEC1), D(kParams), D(kSEC1), G(kParams), D(kSEC1)}
+	case "certs":
+		ms = []c16Obj{g.certObj(c, gen), g.certObj(c, dev), g.other("named-cert"), D(kSEC1)}
+	}
+	b := c16Bundle(sep, ms...)
+	g.c.Emit("bundle:"+name+"-"+tag, SL{b.desc, SB(b.data)}, g.inspectFile(b.data, false))
+	// the same object as a file of its own, inspected right after a genuine one
+	f := c16Forms[n%len(c16Forms)]
+	in, out := SL{}, SL{}
+	for _, o := range []c16Obj{g.ecObj(c, gen, f[0], f[1] == 1), g.ecObj(c, dev, f[0], f[1] == 1)} {
+		in = append(in, SL{o.desc, SB(o.data)})
+		out = append(out, g.inspectFile(o.data, false))
+	}
+	form := "der"
+	if f[1] == 1 {
+		form = "pem"
+	}
+	g.c.Emit("history:"+c16KindName[f[0]]+"-"+form+"-"+tag, in, out)
+	g.pending = append(g.pending, c16Dev{tag, dev})
+}
+
+func c16RunCLI(bin, cwd string, args ...string) ([]byte, int) {
+	ctx, cancel := context.WithTimeout(context.Background(), 120*time.Second)
+	defer cancel()
+	cmd := exec.CommandContext(ctx, bin, args...)
+	cmd.Dir = cwd
+	var so bytes.Buffer
+	cmd.Stdout = &so
+	cmd.WaitDelay = time.Second
+	code := 0
+	if err := cmd.Run(); err != nil {
+		code = -1
+		if ee, ok := err.(*exec.ExitError); ok {
+			code = ee.ExitCode()
+		}
+	}
+	return so.Bytes(), code
+}
+
+// flushContext: the deviations collected since the last call, together with genuine objects, through
+// the real command-line tool (one process per directory: -r, and the same files as arguments in the
+// opposite order) and as the entries of one keystore
+func (g *c16Gen) flushContext(c c16Curve, gen ecSpec) {
+	devs := g.pending
+	g.pending = nil
+	if g.c.Bin == "" || len(devs) == 0 {
 		return
 	}
-	f := c16Forms[g.rr%len(c16Forms)]
-	g.rr++
-	g.emitFile(tag, f[0], f[1] == 1, g.file(c, s, f[0], f[1] == 1))
+	const chunk = 40
+	for lo := 0; lo < len(devs); lo += chunk {
+		hi := lo + chunk
+		if hi > len(devs) {
+			hi = len(devs)
+		}
+		var objs []c16Obj
+		nextForm := func() (int, bool) {
+			f := c16Forms[g.rr%len(c16Forms)]
+			g.rr++
+			return f[0], f[1] == 1
+		}
+		k, pf := nextForm()
+		objs = append(objs, g.ecObj(c, gen, k, pf))
+		for i, d := range devs[lo:hi] {
+			k, pf = nextForm()
+			objs = append(objs, g.ecObj(c, d.s, k, pf))
+			if i == chunk/2 {
+				k, pf = nextForm()
+				objs = append(objs, g.ecObj(c, gen, k, pf))
+			}
+		}
+		last := devs[hi-1].s
+		objs = append(objs, c16Bundle("", g.ecObj(c, gen, kParams, true), g.ecObj(c, last, kSEC1, true)))
+		objs = append(objs, c16Bundle("", g.ecObj(c, last, kSEC1, true), g.other("cert"), g.ecObj(c, gen, kParams, true), g.ecObj(c, gen, kSEC1, true)))
+		root := filepath.Join(g.dir, "scan")
+		os.RemoveAll(root)
+		os.MkdirAll(filepath.Join(root, "m-sub"), 0o755)
+		var rels []string
+		for i, o := range objs {
+			rel := fmt.Sprintf("%03d.bin", i)
+			if i >= len(objs)/2 {
+				rel = filepath.Join("m-sub", rel) // sorts after the digits: the scan order is the order of objs
+			}
+			rel = filepath.Join("scan", rel)
+			if err := os.WriteFile(filepath.Join(g.dir, rel), o.data, 0o644); err != nil {
+				fmt.Fprintln(os.Stderr, "c16: write:", err)
+				os.Exit(1)
+			}
+			rels = append(rels, rel)
+		}
+		in := SL{}
+		for i, o := range objs {
+			in = append(in, SL{S(rels[i]), o.desc, SB(o.data)})
+		}
+		stdout, code := c16RunCLI(g.c.Bin, g.dir, "-r", "scan")
+		g.c.Emit("cli:scan-r", SL{I(0), in}, SL{I(code), SB(stdout)})
+		rin, args := SL{}, []string{}
+		for i := len(objs) - 1; i >= 0; i-- {
+			rin = append(rin, in[i])
+			args = append(args, rels[i])
+		}
+		stdout, code = c16RunCLI(g.c.Bin, g.dir, args...)
+		g.c.Emit("cli:args", SL{I(1), rin}, SL{I(code), SB(stdout)})
+		os.RemoveAll(root)
+	}
+	// a keystore of trusted-certificate entries: genuine, a sample of the deviations, genuine
+	var specs []ecSpec
+	specs = append(specs, gen)
+	for k := 0; k < 6 && k < len(devs); k++ {
+		specs = append(specs, devs[g.c.R.Intn(len(devs))].s)
+	}
+	specs = append(specs, gen)
+	var aliases []string
+	var millis []int64
+	var ders [][]byte
+	st := SL{I(5)}
+	for i, s := range specs {
+		aliases = append(aliases, fmt.Sprintf("entry-%d", i))
+		millis = append(millis, 1700000000000+int64(i)*1000)
+		ders = append(ders, c16Cert(c, s.der()))
+	}
+	mac := NewRng(1)
+	for i, s := range specs {
+		one := g.inspectAlone(jksOf(aliases[i:i+1], millis[i:i+1], ders[i:i+1], mac))
+		if i == 0 {
+			top := one
+			top.Children = nil
+			st = append(st, InfoSx(top))
+		}
+		var entry file.Info
+		if len(one.Children) == 1 {
+			entry = one.Children[0]
+		}
+		fs := SL{}
+		if f := c16FieldsOfSpec(s); f != nil {
+			fs = append(fs, f.Sx())
+		}
+		st = append(st, SL{I(9), I(0), SL{I(3), InfoSx(entry), fs}})
+	}
+	data := jksOf(aliases, millis, ders, mac)
+	g.c.Emit("keystore:jks", SL{SL{I(7), I(0), st}, SB(data)}, g.inspectFile(data, false))
 }
 
 type c16Comp struct {
@@ -643,6 +1036,11 @@ func (g *c16Gen) mutants(ci int, compressed, withSeed bool) {
 	if withSeed {
 		enc += "+seed"
 	}
+	g.neighbor = &base
+	defer func() {
+		g.flushContext(c, base)
+		g.neighbor = nil
+	}()
 	g.paramCase("genuine-"+enc, c, base, true)
 	R := g.c.R
 	for _, comp := range c16Comps {
@@ -686,6 +1084,69 @@ func (g *c16Gen) mutants(ci int, compressed, withSeed bool) {
 			}
 		}
 	}
+	// ---- deviations of one component defined relative to ANOTHER component: x OR y, x AND y, x XOR y,
+	// x AND NOT y, x := y over the field-length values a, b, Gx, Gy, p, n (a comparison that lets one
+	// component mask another, or compares the wrong pair, accepts some of these) ----
+	type felem struct {
+		name string
+		get  func(s *ecSpec) []byte
+		set  func(s *ecSpec, v []byte)
+	}
+	fl := c.flen
+	asInt := func(v []byte) []byte { return intContent(new(big.Int).SetBytes(v)) }
+	elems := []felem{
+		{"a", func(s *ecSpec) []byte { return s.a }, func(s *ecSpec, v []byte) { s.a = v }},
+		{"b", func(s *ecSpec) []byte { return s.b }, func(s *ecSpec, v []byte) { s.b = v }},
+		{"gx", func(s *ecSpec) []byte { return s.base[1 : 1+fl] }, func(s *ecSpec, v []byte) { copy(s.base[1:1+fl], v) }},
+		{"p", func(s *ecSpec) []byte { return c.p.FillBytes(make([]byte, fl)) }, func(s *ecSpec, v []byte) { s.primeC = asInt(v) }},
+		{"n", func(s *ecSpec) []byte { return c.n.FillBytes(make([]byte, fl)) }, func(s *ecSpec, v []byte) { s.orderC = asInt(v) }},
+	}
+	if !compressed {
+		elems = append(elems, felem{"gy", func(s *ecSpec) []byte { return s.base[1+fl:] }, func(s *ecSpec, v []byte) { copy(s.base[1+fl:], v) }})
+	}
+	relOps := []struct {
+		name string
+		f    func(x, y byte) byte
+	}{{"or", func(x, y byte) byte { return x | y }}, {"and", func(x, y byte) byte { return x & y }}, {"xor", func(x, y byte) byte { return x ^ y }},
+		{"andnot", func(x, y byte) byte { return x &^ y }}, {"copy", func(x, y byte) byte { return y }}}
+	for _, ex := range elems {
+		for _, ey := range elems {
+			if ex.name == ey.name {
+				continue
+			}
+			close := ex.name+ey.name == "ab" || ex.name+ey.name == "ba" || ex.name+ey.name == "gxgy" || ex.name+ey.name == "gygx"
+			for _, op := range relOps {
+				// quick: every operation on the pairs (a,b) and (Gx,Gy), a seeded sample of the other pairs
+				if !g.c.Thorough() && !close && R.Intn(10) != 0 {
+					continue
+				}
+				s := base.clone()
+				x, y := cp(ex.get(&s)), ey.get(&s)
+				for i := range x {
+					x[i] = op.f(x[i], y[i])
+				}
+				ex.set(&s, x)
+				g.paramCase("rel-"+ex.name+"-"+op.name+"-"+ey.name, c, s, false)
+			}
+		}
+	}
+	// one bit of x flipped at a position where y has a 1 bit / a 0 bit (seeded position)
+	for _, pr := range [][2]int{{0, 1}, {1, 0}} {
+		for _, want := range []byte{1, 0} {
+			s := base.clone()
+			x, y := cp(elems[pr[0]].get(&s)), elems[pr[1]].get(&s)
+			start := R.Intn(8 * fl)
+			for k := 0; k < 8*fl; k++ {
+				bit := (start + k) % (8 * fl)
+				if (y[bit/8]>>(7-uint(bit%8)))&1 == want {
+					x[bit/8] ^= 0x80 >> uint(bit%8)
+					break
+				}
+			}
+			elems[pr[0]].set(&s, x)
+			g.paramCase(fmt.Sprintf("rel-%s-flip-where-%s-is-%d", elems[pr[0]].name, elems[pr[1]].name, want), c, s, false)
+		}
+	}
 	// ---- special deviations ----
 	sp := func(tag string, f func(s *ecSpec)) {
 		s := base.clone()
@@ -693,6 +1154,21 @@ func (g *c16Gen) mutants(ci int, compressed, withSeed bool) {
 		g.paramCase("special-"+tag, c, s, false)
 	}
 	sp("a<->b", func(s *ecSpec) { s.a, s.b = s.b, s.a })
+	sp("gx<->gy", func(s *ecSpec) {
+		if !compressed {
+			s.base = append(append([]byte{4}, c.fy...), c.fx...)
+		} else {
+			s.base = append([]byte{s.base[0]}, c.fy...)
+		}
+	})
+	sp("a,b<->gx,gy", func(s *ecSpec) {
+		s.a, s.b = cp(c.fx), cp(c.fy)
+		if !compressed {
+			s.base = append(append([]byte{4}, c.fa...), c.fb...)
+		} else {
+			s.base = append([]byte{s.base[0]}, c.fa...)
+		}
+	})
 	sp("b=a", func(s *ecSpec) { s.b = cp(s.a) })
 	if compressed {
 		sp("wrong-sign", func(s *ecSpec) { s.base[0] ^= 1 })
@@ -832,10 +1308,12 @@ func genC16(c *Ctx) {
 	f6 := p256.spec(true, true) // F6: compressed base point of the wrong sign (Gy of P-256 is odd: 03 is genuine)
 	f6.base[0] = 2
 	g.paramCase("corpus-F6-wrong-sign", p256, f6, true)
+	g.flushContext(p256, p256.spec(false, true))
 	for ci := range g.curves { // F6 on every curve, with and without seed
 		s := g.curves[ci].spec(true, false)
 		s.base[0] ^= 1
 		g.paramCase("corpus-F6-wrong-sign", g.curves[ci], s, false)
+		g.flushContext(g.curves[ci], g.curves[ci].spec(false, true))
 	}
 	// --- the repository's own explicit-parameter fixtures ---
 	for _, rel := range []string{"x509/der/prime256v1-explicit.pub", "x509/der/secp224r1-explicit.key", "x509/pem/secp384r1-explicit.param",
@@ -851,6 +1329,13 @@ func genC16(c *Ctx) {
 			kind = kPKCS8
 		}
 		g.emitFile("fixture", kind, pemForm, data)
+	}
+	// ... and its two-block files (EC PARAMETERS then EC PRIVATE KEY, as "openssl ecparam -genkey" writes them)
+	for _, cn := range []string{"prime256v1", "secp224r1", "secp384r1", "secp521r1", "sect233r1"} {
+		for _, v := range []string{"-ec-explicit-withparams.key", "-ec-withparams.key"} {
+			b := g.objOfPEMFile(fixture("x509/pem/" + cn + v))
+			g.c.Emit("bundle:fixture", SL{b.desc, SB(b.data)}, g.inspectFile(b.data, false))
+		}
 	}
 	// --- the table's own rows as explicit parameters (with a genuine table these repeat the genuine
 	// sets; with a corrupted constant they are the concrete input on which a wrong name is inferred) ---
@@ -876,6 +1361,7 @@ func genC16(c *Ctx) {
 			}
 			g.paramCase("table-row", g.curves[ci], s, false)
 		}
+		g.flushContext(g.curves[ci], g.curves[ci].spec(false, true))
 	}
 	// --- structured stream ---
 	for ci := range g.curves {
